@@ -12,7 +12,21 @@ open JediModel.Helper
 def srcCfg : Cfg :=
   { dumpCatch := JediModel.Gen.C14.sendDumpCatch
     loadCatch := JediModel.Gen.C14.sendLoadCatch
-    envCatch := JediModel.Gen.C14.envCatch }
+    envCatch := JediModel.Gen.C14.envCatch
+    closeStreams := JediModel.Gen.C14.cleanupCloseStreams.filterMap Stream.ofName?
+    closePerStream := JediModel.Gen.C14.cleanupClosePerStream
+    closeCatch := JediModel.Gen.C14.cleanupCloseCatch }
+
+/-- the close loop of `_cleanup_process` as read from the source has the try/except INSIDE the loop,
+lists all three pipe objects and its clause names a base of `BrokenPipeError`.  (This is the
+statement that stops building when the try/except is hoisted out of the loop, a stream is dropped
+from the list or the clause is narrowed.) -/
+theorem src_good_close : GoodClose srcCfg :=
+  ⟨by decide, by intro s; cases s <;> decide, by unfold CloseContained; decide⟩
+
+/-- the pipes `_get_process` opens are the three the model's `Proc.start` opens -/
+theorem popen_pipes_modelled :
+    JediModel.Gen.C14.popenPipes.filterMap Stream.ofName? = Stream.all := by decide
 
 /-- every truncated reply in the plan makes the Unpickler raise a class that `_send` catches.
 With the clause of the unchanged source (`except EOFError`) this excludes replies cut inside an
@@ -41,7 +55,7 @@ are preserved, so the statement applies again to the next request: by induction 
 consecutive crashes each cost exactly the in-flight request. -/
 theorem crash_one_failure_partial (plan : Plan) (hp : TruncCaught srcCfg plan) (p : Proc) (r : Req)
     (hf : p.Fin) (hs : p.Sound) : SendSpec srcCfg plan p (send srcCfg plan p r) :=
-  send_spec srcCfg plan p r hf hs (src_plan_contained plan hp _ _)
+  send_spec srcCfg plan p r hf hs (src_plan_contained plan hp _ _) src_good_close.catches
 
 /-- non-vacuity: a plan with a death at request 3 of every helper start (a reply cut at an opcode
 boundary, which raises `EOFError`) satisfies the hypothesis -/
@@ -58,7 +72,7 @@ successful `run` leaves the deletion queue empty (every queued id was deleted be
 was served) -/
 theorem run_crash_contained_partial (plan : Plan) (hp : TruncCaught srcCfg plan) (p : Proc) (s : Nat)
     (hf : p.Fin) (hs : p.Sound) : RunSpec p (run srcCfg plan p s) :=
-  run_spec srcCfg plan (src_plan_contained plan hp) p s hf hs
+  run_spec srcCfg plan (src_plan_contained plan hp) src_good_close.catches p s hf hs
 
 /-- The full statement holds as soon as the except clause around `pickle_load` also names the
 class a cut inside an opcode raises (the proposed fix): then *every* plan whose truncated replies
@@ -67,11 +81,12 @@ theorem crash_one_failure_if_unpickling_caught (cfg : Cfg)
     (h1 : caught "BrokenPipeError" cfg.dumpCatch = true)
     (h2 : caught "EOFError" cfg.loadCatch = true)
     (h3 : caught "UnpicklingError" cfg.loadCatch = true)
+    (h4 : caught "BrokenPipeError" cfg.closeCatch = true)
     (plan : Plan)
     (hcls : ∀ h k cls, plan h k = .trunc cls → cls = "EOFError" ∨ cls = "UnpicklingError")
     (p : Proc) (r : Req) (hf : p.Fin) (hs : p.Sound) :
     SendSpec cfg plan p (send cfg plan p r) := by
-  apply send_spec cfg plan p r hf hs
+  apply send_spec cfg plan p r hf hs ?_ h4
   cases hfa : plan p.idx p.nreq with
   | trunc cls =>
     rcases hcls _ _ _ hfa with rfl | rfl
@@ -128,8 +143,8 @@ theorem cleanup_once_after_drop (cfg : Cfg) (plan : Plan) (ops : List Op) :
       intro e he p hp
       simp only [List.nil_append, exec, step, List.mem_map] at hp
       obtain ⟨q, hq, rfl⟩ := hp
-      refine ⟨?_, (he q hq).cleanup⟩
-      unfold Proc.cleanup; split <;> simp_all
+      refine ⟨?_, ((he q hq).cleanup cfg).withFds []⟩
+      unfold Proc.cleanup Proc.cleanupX; split <;> simp_all
     | cons op ops ih =>
       intro e he p hp
       simp only [List.cons_append, exec] at hp
@@ -144,5 +159,77 @@ queues nothing -/
 theorem no_delete_after_crash (cfg : Cfg) (plan : Plan) (p : Proc) (r : Req) (h : p.crashed = true) :
     send cfg plan p r = (p, .raised "InternalError") :=
   send_crashed cfg plan p r h
+
+/-! ### "no leaked pipes" -/
+
+/-- `_cleanup_process` closes all three pipes **for every subset of the streams whose `close()`
+raises an `OSError`** (of whatever subclass): with the loop as read from the source, whatever the
+parent still holds before, it holds no descriptor afterwards and no exception escapes. -/
+theorem cleanup_closes_all_streams (raises : CloseRaises)
+    (hos : ∀ s cls, raises s = some cls → "OSError" ∈ mro cls) (fds : List Stream) :
+    closeLoop srcCfg raises fds = ([], none) := by
+  apply closeLoop_good srcCfg src_good_close
+  intro s cls h
+  exact caught_of_mem (hos s cls h) (by decide)
+
+/-- non-vacuity: `stdin.close()` raising `BrokenPipeError` (the unflushed request of a "before
+send" death) and `stderr.close()` raising a plain `OSError` satisfy the hypothesis -/
+example : ∀ (s : Stream) (cls : String), (match s with
+      | .stdin => some "BrokenPipeError" | .stdout => none | .stderr => some "OSError") = some cls →
+    "OSError" ∈ mro cls := by
+  intro s cls h
+  cases s <;> simp at h <;> subst h <;> decide
+
+/-- the finalizer of one helper, whatever its state: if it was still armed, the helper holds no
+descriptor afterwards - also when its `stdin` (or any other stream) is broken -/
+theorem finalizer_releases_pipes (p : Proc) (ha : p.armed = true) : (p.cleanup srcCfg).fds = [] :=
+  cleanup_fds srcCfg src_good_close p ha
+
+/-- **Dead helpers hold no pipes**, for every plan and every trace of operations, at every moment
+(not only after everything was dropped): a `CompiledSubprocess` that is marked crashed, or whose
+finalizer has run, or that was never started, has no open descriptor in the parent. -/
+theorem no_leaked_pipes (plan : Plan) (ops : List Op) :
+    ∀ p ∈ (exec srcCfg plan {} ops).1.procs,
+      (p.crashed = true ∨ p.cleanups = 1 ∨ p.started = false) → p.fds = [] := by
+  intro p hp hcase
+  have hn : p.NoLeak := exec_allNoLeak srcCfg src_good_close plan ops {} (by intro x hx; cases hx) p hp
+  have hf : p.Fin := exec_allFin srcCfg plan ops {} (by intro x hx; cases hx) p hp
+  obtain ⟨h1, _, _, h4, _⟩ := hf
+  apply hn
+  rcases hcase with hc | hc | hc
+  · exact (h4 hc).2
+  · cases ha : p.armed
+    · rfl
+    · cases hs : p.started <;> simp [hc, ha, hs] at h1
+  · cases ha : p.armed
+    · rfl
+    · rw [hc, ha] at h1; simp at h1
+
+/-- the shape with ONE try/except around the whole loop (literal, independent of the source) -/
+def hoistedCfg : Cfg :=
+  { dumpCatch := ["BrokenPipeError"], loadCatch := ["EOFError", "pickle.UnpicklingError"],
+    envCatch := ["Exception"], closePerStream := false }
+
+/-- Counter-witness for the hoisted shape: `stdin.close()` raises, the exception is swallowed, and
+`stdout` / `stderr` stay open. -/
+theorem hoisted_try_leaks_two_pipes :
+    closeLoop hoistedCfg (fun s => if s = .stdin then some "BrokenPipeError" else none) Stream.all
+      = ([.stdout, .stderr], none) := by decide
+
+/-- ... and on a trace: the helper is dead before request 2 is written (`BrokenPipeError` in
+`pickle_dump`, the request stays buffered); the query fails with `InternalError`, the helper is
+reaped, the next Script works - and the crashed helper still holds two descriptors. -/
+theorem hoisted_try_leaks_on_trace :
+    ((exec hoistedCfg (planOf [(0, 2, .beforeSend)]) {}
+      [.newState 1, .sysPath, .call 1, .drop 1, .newState 2, .call 2]).1.procs.map
+        fun p => (p.crashed, p.reaped, p.fds.length)) = [(false, false, 3), (true, true, 2)] := by
+  decide
+
+/-- the same trace with the loop of the source: nothing is left -/
+theorem src_trace_no_leak :
+    ((exec srcCfg (planOf [(0, 2, .beforeSend)]) {}
+      [.newState 1, .sysPath, .call 1, .drop 1, .newState 2, .call 2]).1.procs.map
+        fun p => (p.crashed, p.reaped, p.fds.length)) = [(false, false, 3), (true, true, 0)] := by
+  decide
 
 end JediModel.Props.C14
